@@ -613,3 +613,68 @@ Section Agree.
     - exact (Her _ _ Hf0).
   Qed.
 End Agree.
+
+(* ---------- corollary A: C04's order independence, OF Pipeline.exec ---------- *)
+Theorem pipeline_order_independent : forall fmt G (o1 o2 : Det.oracle) a w gens s,
+  world_wf w -> Det.shuffles o1 -> Det.shuffles o2 -> natural o1 -> natural o2 ->
+  NoDup (D.keys G) -> NoDup (map g_name gens) ->
+  let E1 := whole_env fmt (order_of o1) G in
+  let E2 := whole_env fmt (order_of o2) G in
+  (exec_outcome E1 a w gens s = Done <-> exec_outcome E2 a w gens s = Done)
+  /\ (exec_outcome E1 a w gens s = Done ->
+      (forall q, fs_lookup q (exec_fs E1 a w gens s) = fs_lookup q (exec_fs E2 a w gens s))
+      /\ flat_trace (exec_trace E1 a w gens s) = flat_trace (exec_trace E2 a w gens s)).
+Proof.
+  intros fmt G o1 o2 a w gens s Hw Hs1 Hs2 Hn1 Hn2 HG Hgn E1 E2.
+  pose proof (det_agree fmt G o1 a w Hw Hs1 Hn1 gens Hgn s) as H1.
+  pose proof (det_agree fmt G o2 a w Hw Hs2 Hn2 gens Hgn s) as H2.
+  fold E1 in H1. fold E2 in H2.
+  assert (Hwa : TP.wf_args (det_args G a)).
+  { unfold TP.wf_args. cbn [det_args Det.a_globals]. fold (Det.keys (dt G)). rewrite keys_dt. exact HG. }
+  pose proof (TP.run_order_independent (det_render fmt) det_parse_sum (only_gfs o1) (only_gfs o2) (det_args G a)
+                (w_direct w) (w_direct w) (det_world w) (map (det_gen w) gens) (det_fs s)
+                (only_gfs_shuffles o1 Hs1) (only_gfs_shuffles o2 Hs2) Hwa (det_world_wf w Hw) (Permutation_refl _)) as Heq.
+  destruct (Det.run true true (det_render fmt) det_parse_sum (only_gfs o1) (det_args G a) (w_direct w) (det_world w)
+              (map (det_gen w) gens) (det_fs s)) as [[f1 l1]|];
+    destruct (Det.run true true (det_render fmt) det_parse_sum (only_gfs o2) (det_args G a) (w_direct w) (det_world w)
+                (map (det_gen w) gens) (det_fs s)) as [[f2 l2]|]; cbn [TP.out_equiv] in Heq; try contradiction.
+  - destruct H1 as [Hd1 [Hf1 Hl1]]. destruct H2 as [Hd2 [Hf2 Hl2]]. destruct Heq as [Hfe Hle].
+    split; [split; intros _; assumption|]. intros _. split.
+    + intros q. rewrite <- Hf1, <- Hf2. apply Hfe.
+    + rewrite <- Hl1, <- Hl2, Hle. reflexivity.
+  - split; [split; intros Hx; contradiction|]. intros Hx. contradiction.
+Qed.
+
+(* ---------- corollary B: what C07 / C02 prove, OF Determinism.run (on inputs that come from the pipeline's) ---------- *)
+Section Transfer.
+  Variable fmt : bytes -> option bytes.
+  Variable G : tags.
+  Variable o : Det.oracle.
+  Variable a : args.
+  Variable w : world.
+  Hypothesis Hw : world_wf w.
+  Hypothesis Hs : Det.shuffles o.
+  Hypothesis Hnat : natural o.
+  Variable gens : list generator.
+  Hypothesis Hgn : NoDup (map g_name gens).
+  Variable s : fs.
+  Let E := whole_env fmt (order_of o) G.
+  Let r := Det.run true true (det_render fmt) det_parse_sum (only_gfs o) (det_args G a) (w_direct w) (det_world w)
+                   (map (det_gen w) gens) (det_fs s).
+
+  (* a failing run of Determinism (None) is a run of the pipeline that did not come back with Done: C02's theorems
+     say what such a run has and has not done *)
+  Theorem det_fails_iff : r = None <-> exec_outcome E a w gens s <> Done.
+  Proof.
+    pose proof (det_agree fmt G o a w Hw Hs Hnat gens Hgn s) as H. fold E in H. fold r in H.
+    destruct r as [[f' log]|]; split; intros Hx; try discriminate Hx; try reflexivity; try exact H.
+    destruct H as [Hd _]. contradiction.
+  Qed.
+
+  (* C07's frame: a successful run leaves every path that is not gengo's own output as it was *)
+  Theorem det_frame : forall f' log q, r = Some (f', log) -> ~ own_output E a w s q -> f' q = det_fs s q.
+  Proof.
+    intros f' log q Hr Hq. pose proof (det_agree fmt G o a w Hw Hs Hnat gens Hgn s) as H. fold E in H. fold r in H.
+    rewrite Hr in H. destruct H as [_ [Hf _]]. rewrite Hf. unfold det_fs. apply frame. exact Hq.
+  Qed.
+End Transfer.
